@@ -193,6 +193,10 @@ func (s *Spec) qualifier(path string) string {
 			return fmt.Sprintf("%s%d", pk.Name, i+1)
 		}
 	}
+	if pk.Name == "time" || pk.Name == "sql" || pk.Name == "json" {
+		// a user package named like a standard one the file may import too
+		return "user" + pk.Name
+	}
 	return pk.Name
 }
 
